@@ -743,7 +743,7 @@ impl Line {
              * If we see anything we don't like then Line::None is
              * immediately returned.
              */
-            let mut field = 0;
+            let mut field: usize = 0;
             let mut action = String::new();
             let mut path = PathBuf::new();
             let mut value = String::new();
